@@ -436,6 +436,49 @@ pub fn seed_many_files(n: usize) -> Seed {
     p.seed(&format!("many-files:b@0,a@0..{}", n - 1))
 }
 
+/// `n` files; b has one old record in file 0 (the pin) and one in file n-2; a has a record in
+/// every file; an extra queue has its only record in file n-2 and is deleted in file n-1; a is
+/// emptied in file n-1 (nothing can be released: b pins file 0); finally b is emptied, which
+/// releases files 0..n-2 in ONE pass. The entries that supersede what file n-2 holds (a's and b's
+/// truncations, the deletion of the extra queue) all live in file n-1: whatever goes wrong with the
+/// last file of a mass release shows after [roll over, release file n-1, restart].
+pub fn seed_mass_release(n: usize) -> Seed {
+    let extra = 4u8;
+    let mut p = Planner::new();
+    p.push(Op::Create(QA)).push(Op::Create(QB)).push(Op::Create(QF)).push(Op::Create(extra)).push(s3(QB));
+    for f in 1..n {
+        p.push(s3(QA));
+        if f == n - 1 {
+            p.push(s3(QB));
+            p.push(s3(extra));
+        }
+        p.fill_to(f * FILE);
+    }
+    p.push(s3(QA));
+    p.push(Op::Trunc { q: QF, at: Tr::Last });
+    p.push(Op::Delete(extra));
+    p.push(Op::Trunc { q: QA, at: Tr::Last });
+    p.push(Op::Trunc { q: QB, at: Tr::Last });
+    let mut s = p.seed(&format!("mass-release:{} files released by one truncate, superseding entries in the file after them", n - 1));
+    s.predicted_cursor = None;
+    s
+}
+
+pub fn mass_release_seeds() -> Vec<Seed> {
+    vec![seed_mass_release(6), seed_mass_release(10), seed_mass_release(18), seed_mass_release(34)]
+}
+
+/// Alphabet that rolls over, releases the current file and restarts.
+pub fn a_release() -> Vec<Op> {
+    vec![
+        Op::app(QA, Pos::Auto, Sz::XL),
+        Op::Trunc { q: QA, at: Tr::Last },
+        Op::Reopen,
+        Op::app(QB, Pos::Auto, Sz::S3),
+        Op::Trunc { q: QB, at: Tr::Last },
+    ]
+}
+
 /// A single WAL file in which nothing retained lives any more (every queue emptied by
 /// truncation while there was nothing to collect), cursor `r` bytes before its end: the next
 /// append or create rolls over WITHOUT a GC pass, so the following `open` is the one that has
